@@ -772,7 +772,13 @@ func (p *Program) runPath(cfg *Config, fn *ssa.Function, prefix []pdec, solver *
 			m.lenient = true
 			m.noPreempt++
 			for _, init := range p.Inits {
+				if os.Getenv("VERIF_DEBUG_INIT") != "" {
+					fmt.Fprintf(os.Stderr, "init %s start\n", init)
+				}
 				m.call(nil, nil, init, nil)
+				if os.Getenv("VERIF_DEBUG_INIT") != "" {
+					fmt.Fprintf(os.Stderr, "init %s done steps=%d\n", init, m.steps)
+				}
 			}
 			m.noPreempt--
 			m.lenient = false
